@@ -121,6 +121,7 @@ def gen(rng, tier, index):
     spec["how"] = gens.pick(rng, forms.CONFIGURE)
     spec["xform"] = gens.pick(rng, forms.PRESENT)
     spec["yform"] = gens.pick(rng, forms.PRESENT)
+    spec["clobber"] = bool(rng.random() < 0.5)
     spec["carry"] = gens.pick(rng, forms.CARRY)
     return {
         "spec": spec,
